@@ -9,6 +9,7 @@ import Driver.Search
 import Driver.Compare
 import Driver.Num
 import Driver.Flt
+import Driver.Fmt
 
 open Driver
 
@@ -24,6 +25,7 @@ def dispatch (c : Case) : Verdict :=
   else if fam == "scmp" || fam == "scmpnull" || fam == "bcmp" || fam == "bcmpnull" || fam == "rawcmp" || fam == "bigcmp" || fam == "casemap" || fam == "tri" || fam == "blk.scmp" || fam == "blk.bcmp" || fam == "blk.tri" then Driver.Compare.handle c
   else if fam.startsWith "num." || fam.startsWith "blk.num." then Driver.Num.handle c
   else if fam.startsWith "flt." then Driver.Flt.handle c
+  else if fam == "fmt" then Driver.Fmt.handle c
   else { corr := false, why := "no handler for op " ++ c.op }
 
 structure Stats where
